@@ -114,6 +114,43 @@ def document_cycle(case):
                 r["second_write_differs"] = True
             cur = NeuroMLLoader.load(fn)
             r["back%d" % i] = dump(cur)
+        # every public writer / loader entry point must agree with the plain path-based pair
+        mism = []
+        fn = os.path.join(d, "cycle0.nml")
+        ref_bytes = open(fn, "rb").read()
+        ref_dump = r["back0"]
+        try:
+            fo = os.path.join(d, "fileobj_default_close.nml")
+            fh = open(fo, "w")
+            NeuroMLWriter.write(doc, fh)            # documented default: close=True
+            if open(fo, "rb").read() != ref_bytes:   # read while the caller still holds fh
+                mism.append("writer:file-object(default close): file content differs from the path-written file")
+            fo2 = os.path.join(d, "fileobj_noclose.nml")
+            fh2 = open(fo2, "w")
+            NeuroMLWriter.write(doc, fh2, close=False)
+            if fh2.closed:
+                mism.append("writer:file-object(close=False): the caller's handle was closed")
+            else:
+                fh2.close()
+            if open(fo2, "rb").read() != ref_bytes:
+                mism.append("writer:file-object(close=False): file content differs from the path-written file")
+        except Exception as e:  # noqa
+            mism.append("writer:file-object raises " + type(e).__name__ + ": " + str(e)[:120])
+        try:
+            from neuroml.loaders import read_neuroml2_file, read_neuroml2_string
+            for name, f in (("read_neuroml2_file", lambda: read_neuroml2_file(fn)),
+                            ("read_neuroml2_string", lambda: read_neuroml2_string(open(fn).read())),
+                            ("read_neuroml2_string(leading comment)", lambda: read_neuroml2_string("<!-- c -->\n" + open(fn).read()))):
+                try:
+                    got = dump(f())
+                    if got != ref_dump:
+                        diff = [a[0] for a, b in zip(ref_dump["fields"], got["fields"]) if a != b][:4]
+                        mism.append("loader:%s differs from NeuroMLLoader.load in %s" % (name, ",".join(diff)))
+                except BaseException as e:  # noqa  (sys.exit inside the loaders included)
+                    mism.append("loader:%s raises %s: %s" % (name, type(e).__name__, str(e)[:120]))
+        except Exception as e:  # noqa
+            mism.append("loader entry points: " + type(e).__name__)
+        r["entry_mismatch"] = mism
         r["text0"] = texts[0] if len(texts[0]) < 3000 else texts[0][:3000]
         r["bytes_stable"] = texts[1] == texts[2]
         r["bytes_first_equal"] = texts[0] == texts[1]
